@@ -41,6 +41,10 @@ class Stream:
     def nontrivial(self, case, obs):
         return True
 
+    def same(self, impl_obs, model_obs):
+        """do the two observations agree?  (equality, unless a stream compares sets of outcomes)"""
+        return impl_obs == model_obs
+
     def key(self, case):
         return core.digest(case)
 
@@ -191,7 +195,7 @@ def run_check(prop, streams, argv, level_text='', trusted_base=(), assumptions=(
                 n_unmod += 1
             bucket = (io or '')[:1] if not io.startswith(('E:', 'B:')) else io.split(' ')[0][:24]
             dist[bucket] = dist.get(bucket, 0) + 1
-            differ = (mo is not None) and (not unmod) and (io != mo)
+            differ = (mo is not None) and (not unmod) and (not st.same(io, mo))
             if oc is None and not differ:
                 if st.nontrivial(c, io) and not unmod:
                     nontriv.add(st.key(c))
@@ -218,7 +222,7 @@ def run_check(prop, streams, argv, level_text='', trusted_base=(), assumptions=(
                         o = st.oracle(x, a)
                     except Exception:  # noqa
                         o = None
-                    d = b is not None and 'UNMODELLED' not in b and a != b and not a.startswith('SKIP')
+                    d = b is not None and 'UNMODELLED' not in b and not st.same(a, b) and not a.startswith('SKIP')
                     k2 = st.classify(x, a, b)
                     out.append((o is not None or d) and not (k2 and k2 in known_open))
                 return out
